@@ -146,20 +146,71 @@ def _annotation(thunk):
         return None
 
 
-def _suspend(cm, value):
-    """Called by an instrumented generator right before it yields value."""
+def _suspend(cm):
+    """Called by an instrumented generator right before it is suspended."""
     suspend = getattr(cm, "suspend", None)
     if suspend is not None:
         suspend()
-    return value
 
 
-def _resume(cm, value):
+def _resume(cm):
     """Called by an instrumented generator right after it is resumed."""
     resume = getattr(cm, "resume", None)
     if resume is not None:
         resume()
-    return value
+
+
+def _yield(cm, value):
+    """One suspension of an instrumented generator: ``yield from _yield(cm, v)``.
+
+    However the generator is resumed (next, send, throw, close, garbage
+    collection), it is told so before its own code runs again.
+    """
+    _suspend(cm)
+    try:
+        return (yield value)
+    finally:
+        _resume(cm)
+
+
+def _delegate(cm, iterable):
+    """``yield from _delegate(cm, it)`` is ``yield from it`` (PEP 380), where
+    each suspension of the instrumented generator is bracketed like in
+    :func:`_yield`: the subiterator's own code runs with the generator
+    resumed."""
+    it = iter(iterable)
+    try:
+        y = next(it)
+    except StopIteration as stop:
+        return stop.value
+    while True:
+        _suspend(cm)
+        try:
+            sent = yield y
+        except GeneratorExit:
+            _resume(cm)
+            close = getattr(it, "close", None)
+            if close is not None:
+                close()
+            raise
+        except BaseException as exc:
+            _resume(cm)
+            throw = getattr(it, "throw", None)
+            if throw is None:
+                raise
+            try:
+                y = throw(exc)
+            except StopIteration as stop:
+                return stop.value
+        else:
+            _resume(cm)
+            try:
+                if sent is None:
+                    y = next(it)
+                else:
+                    y = it.send(sent)
+            except StopIteration as stop:
+                return stop.value
 
 
 class ExternalVariableCollector(NodeVisitor):
@@ -1089,15 +1140,12 @@ class PteraTransformer(NodeTransformer):
         )
         # While the generator is suspended, its caller must not run with the
         # handlers that are in effect inside the generator.
-        suspended = ast.Call(
-            func=self._get("suspend"),
-            args=[self._get("cm"), new_value],
-            keywords=[],
-        )
-        resumed = ast.Call(
-            func=self._get("resume"),
-            args=[self._get("cm"), ast.Yield(value=suspended)],
-            keywords=[],
+        resumed = ast.YieldFrom(
+            value=ast.Call(
+                func=self._get("yield"),
+                args=[self._get("cm"), new_value],
+                keywords=[],
+            )
         )
         new_yield = self._interact(
             "#receive",
@@ -1107,6 +1155,18 @@ class PteraTransformer(NodeTransformer):
             True,
         )
         return ast.copy_location(new_yield, node)
+
+    def visit_YieldFrom(self, node):
+        return ast.copy_location(
+            ast.YieldFrom(
+                value=ast.Call(
+                    func=self._get("delegate"),
+                    args=[self._get("cm"), self.visit(node.value)],
+                    keywords=[],
+                )
+            ),
+            node,
+        )
 
 
 class _Conformer:
@@ -1449,8 +1509,8 @@ def transform(fn, proceed, to_instrument=True, set_conformer=True):
         "self": (fnsym, None),
         "frame": ("__ptera_frame", None),
         "cm": ("__ptera_cm", None),
-        "suspend": ("__ptera_suspend", _suspend),
-        "resume": ("__ptera_resume", _resume),
+        "yield": ("__ptera_yield", _yield),
+        "delegate": ("__ptera_delegate", _delegate),
         "enter_tag": ("__ptera_enter_tag", enter_tag),
         "exit_tag": ("__ptera_exit_tag", exit_tag),
     }
